@@ -183,7 +183,7 @@ def transfer(  # noqa: PLR0913
     dest: "HashFileDB",
     obj_ids: Iterable["HashInfo"],
     jobs: Optional[int] = None,
-    verify: bool = False,
+    verify: Optional[bool] = None,
     hardlink: bool = False,
     validate_status: Optional[Callable[["CompareStatusResult"], None]] = None,
     src_index: Optional["ObjectDBIndexBase"] = None,
